@@ -172,7 +172,7 @@ impl Property for C02 {
         "C02"
     }
     fn rule(&self) -> &'static str {
-        "proptest histories (<=30 quick / <=60 thorough ops) of batched approvals (with in-batch duplicates and re-use of known ids), consumption attempts (probe contract calling as itself, accounts with/without authorisation, destinations and callers that are the account-kind address carrying the same 32 bytes as a contract-kind destination, exact replay of a stored message or with one field changed, a contract naming another address) signer rotations (ordinary and operator-bypass; later approvals are signed by the new set) and ledger advancement by 1-89 days (<= 250 days in total; statuses must not decay) over pools built to collide: 14 chains x 14 ids such that several pairs consist of the same characters split differently between chain and id (plain concatenation: a+bc = ab+c = abc+\"\"; with separators: x + y_z vs x_y + z, p + q:r vs p:q + r) two pairs of 70-character strings differing only in the last character, one pair of 150 characters split at two different positions, and strings differing only in letter case or a leading/trailing space; oracle = reference map (chain,id)->NotApproved/Approved(msg)/Executed moving only forward, event trace per op, sweep of is_message_executed over every known id and every id that collides with a known one and is_message_approved over stored messages and one-field variants after every op. non-trivial = history re-approves an executed id, or consumes with exactly one mismatching field after an approval, or has an in-batch duplicate id, or touches two ids whose chain||id concatenations coincide. A share of the random cases is an entry-point sweep (construction as described for C13: the exported functions of all shipped contracts read from the sources of the tree under test, a complete deployed system, pooled arguments - including well-formed signer sets nobody installed and proofs properly signed by the gateway's own signer set over digests that belong to no command -, every require_auth satisfied by the host's mock and recorded; entry points absent from the pinned inventory get 300 deterministic cases each); oracle: one of eight messages the gateway holds approved becomes executed only if the destination it names is among the recorded signers or is the called contract; non-trivial = the call succeeded"
+        "proptest histories (<=30 quick / <=60 thorough ops) [three strings are members of both the chain pool and the id pool, and an operation approves the mirror image (chain = id, id = chain) of a known message] of batched approvals (with in-batch duplicates and re-use of known ids), consumption attempts (probe contract calling as itself, accounts with/without authorisation, destinations and callers that are the account-kind address carrying the same 32 bytes as a contract-kind destination, exact replay of a stored message or with one field changed, a contract naming another address) signer rotations (ordinary and operator-bypass; later approvals are signed by the new set) and ledger advancement by 1-89 days (<= 250 days in total; statuses must not decay) over pools built to collide: 14 chains x 14 ids such that several pairs consist of the same characters split differently between chain and id (plain concatenation: a+bc = ab+c = abc+\"\"; with separators: x + y_z vs x_y + z, p + q:r vs p:q + r) two pairs of 70-character strings differing only in the last character, one pair of 150 characters split at two different positions, and strings differing only in letter case or a leading/trailing space; oracle = reference map (chain,id)->NotApproved/Approved(msg)/Executed moving only forward, event trace per op, sweep of is_message_executed over every known id and every id that collides with a known one and is_message_approved over stored messages and one-field variants after every op. non-trivial = history re-approves an executed id, or consumes with exactly one mismatching field after an approval, or has an in-batch duplicate id, or touches two ids whose chain||id concatenations coincide. A share of the random cases is an entry-point sweep (construction as described for C13: the exported functions of all shipped contracts read from the sources of the tree under test, a complete deployed system, pooled arguments - including well-formed signer sets nobody installed and proofs properly signed by the gateway's own signer set over digests that belong to no command -, every require_auth satisfied by the host's mock and recorded; entry points absent from the pinned inventory get 300 deterministic cases each); oracle: one of eight messages the gateway holds approved becomes executed only if the destination it names is among the recorded signers or is the called contract; non-trivial = the call succeeded"
     }
     fn cases(&self, tier: Tier) -> u64 {
         tier.pick(3000, 40000)
